@@ -1026,7 +1026,8 @@ def stream_faults_from(base_cases, base_obs, rng, tier, recover=True, data_only=
                 # recovery: retry, re-assert every enable, rewrite the block
                 if n % 4 == 3:
                     # the very next call is hit as well (early raw positions)
-                    ops.append(last + ' !%d' % rng.choice([0, 1, 1, 2, 2]))
+                    # (over SPI only raw position 1 is a data operation of the first access in every case)
+                    ops.append(last + ' !%d' % (1 if (data_only and ' spi' in secs[0]) else rng.choice([0, 1, 1, 2, 2])))
                 ops.append(last)
                 ops.append('int drdy:1 fwm:1 ffull:1 orient:1 step:1 latch:1')
                 ops.append('data')
